@@ -44,7 +44,7 @@ CFG = {
                   "lifted by induction to arbitrary query histories from any invariant-satisfying cache state "
                   "(history_irrelevant); to_offset/line_start/line_count exact; in-bounds round trip. Partial: "
                   "to_offset_exact_partial requires line_start + column <= 2^64 (the unchecked `+` wraps beyond that: "
-                  "refutation witness proved and replayed, finding C12-F10); to_line_column at offset = usize::MAX has an "
+                  "refutation witness proved and replayed, finding F10); to_line_column at offset = usize::MAX has an "
                   "unrepresentable column and is excluded (offset < 2^64 - 1).",
     "level_note": "ASSUMES C03: the Elias-Fano `starts` sequence is modelled abstractly as the List Nat it encodes, with "
                   "EliasFano::len/get/predecessor given by their plain-list meaning (length, xs[i]?, last index whose element "
